@@ -555,7 +555,39 @@ def r5_suffix_source(ctx):
     ctx.floor('C13.R5-suffix-source', 'annotation obligations imported', n, 8)
 
 
+def r6_listing_is_current(ctx):
+    """the labelled list a game shows (and resolves typed labels against) is the list enumerated NOW for the board and the side to move:
+    Game::enumerated_candidate_moves returns enumerate_candidate_moves_with_algebraic_notation(board, turn, generator) itself, and the
+    notation input path searches the list enumerated on that path (= C14.R3) - a remembered list keyed by the position key alone belongs
+    to the other side when the same placement recurs after a lost tempo"""
+    rule = 'C13.R6-listing-is-current'
+    facts = ctx.facts
+    name = 'chess::game::game::Game::enumerated_candidate_moves'
+    enum_fn = AN + 'enumerate_candidate_moves_with_algebraic_notation'
+    outs = _Engine(facts, opaque={enum_fn}, readonly={BOARD + '::turn'}).run(name)
+    ctx.touch(name)
+    rets = [o for o in outs if o.kind == 'return']
+    ok = bool(rets)
+    found = []
+    for o in rets:
+        v = o.value
+        calls = [e for e in o.events if e[0] == 'call' and e[1] == enum_fn]
+        found.append(show(v)[:120])
+        fresh = len(calls) == 1 and v == ('call', enum_fn, calls[0][2], calls[0][3])
+        args_ok = fresh and any(s_[0] == 'fld' and s_[2] == 'board' for s_ in subterms(calls[0][2][0])) and \
+            any(s_[0] == 'call' and s_[1] == BOARD + '::turn' for s_ in subterms(calls[0][2][1]))
+        ok = ok and fresh and args_ok and not [c for c in o.conds if not (c[0][0] == 'discr')]
+    ctx.ob(rule, name, 'returns the list enumerated now for (board, side to move), on every path', ok, found=found[:2],
+           expected='enumerate_candidate_moves_with_algebraic_notation(&self.board, self.board.turn(), &mut self.move_generator)',
+           why='every legal move of the CURRENT position gets its label: a list remembered for an equal position key may be the other side\'s')
+    from . import c14
+    import_rules(ctx, rule, [c14.r3_selection],
+                 'a typed label is resolved against the labels of the current position',
+                 keep=lambda s: 'algebraic_notation' in s['function'] or 'floor' in s['instance'], floor=1)
+
+
 def run(ctx):
+    r6_listing_is_current(ctx)
     r1_disambiguation(ctx)
     r2_filter(ctx)
     r3_assembly(ctx)
